@@ -14,6 +14,7 @@ import (
 	"strconv"
 	"sync"
 	"time"
+	"unicode/utf8"
 )
 
 type Draw struct {
@@ -263,3 +264,5 @@ func BytesInRange(s string, lo, hi byte, except string) bool {
 	}
 	return true
 }
+
+func ValidUTF8(s string) bool { return utf8.ValidString(s) }
